@@ -28,9 +28,14 @@ def product(ctx):
     from websocket import _utils
     tab = _table()
     if tab is None:
-        ctx.remark("implementation has no _UTF8D table (compiled validator?): product automaton "
-                   "skipped, conformance only")
-        return None
+        # the validator is no longer table driven: the product cannot be formed from live data.  The witnesses
+        # (one string per state and transition of the Unicode DFA) are then generated from a bundled copy of the
+        # reference automaton; the verdict on each string is still the TLA+ definition's.
+        import json as _json
+        ref = _json.load(open(os.path.join(os.path.dirname(__file__), "utf8_ref_table.json")))
+        tab = (ref["table"], ref["accept"], ref["reject"])
+        ctx.remark("implementation has no _UTF8D table: product automaton formed with the bundled reference table "
+                   "(witness generation only); the real validator is judged on every witness and on the batch")
     t, acc, rej = tab
     gen = {"Utf8Tbl": "---- MODULE Utf8Tbl ----\nUTF8D == %s\nImplAccept == %d\nImplReject == %d\n====\n"
            % (tlc.tla(t), acc, rej)}
